@@ -22,6 +22,7 @@ EXPLANATION = (
     'functions are NOT decided.')
 EXPLANATION += ' Added after the seeded-change rounds: ' + 'D1 also: after a bucket-lock upgrade that released the lock, every pointer the chain mutation uses (node, predecessor) is recomputed on every path before the mutation.'
 EXPLANATION += ' Added in the third session (round-3 seeds and the findings they led to): ' + 'D3 also: the element lock is waited for outside the bucket lock scope (anchored on the acquisition) and, class-wide, no blocking element-lock acquisition happens while a bucket lock is held.'
+EXPLANATION += ' Added in the fifth seeding round: ' + 'D4 also: every operation that receives an accessor releases it before lookup() acquires an element lock through it (in the operation or in the helper the accessor is forwarded to; sibling agreement over all find / insert / emplace overloads) - otherwise the element the accessor held stays locked for ever.'
 ASSUMPTIONS = ['instantiations: concurrent_hash_map<int,int> and <string,string> (explicit instantiation)', 'rw scoped lock model']
 ND = ['linearizability of the map operations', 'no loss across lazy rehash for all hash functions / growth schedules']
 
@@ -32,6 +33,7 @@ def run(facts, rep):
     d3_destroy(facts, rep)
     d4_typing(facts, rep)
     d5_success(facts, rep)
+    d4_accessor_released_before_reuse(facts, rep)
 
 
 def witnesses(rep, tier):
@@ -361,3 +363,67 @@ def d5_success(facts, rep):
                     ok, wit = every_path_passes(fn, 'entry', lambda p, e: p in set(dec), end=pos)
                     rep.ob('D5', 'K4', fn, 'erase reports success only on the path that unlinked the node', ok, wit, ln=node['ln'])
     rep.floor('D5', 3, 'success reporting')
+
+
+def d4_accessor_released_before_reuse(facts, rep):
+    """An accessor is a scoped lock on one element.  Every operation that hands its result out through an accessor
+    (find / insert / emplace with an accessor argument) first lets go of whatever the accessor still holds: lookup() acquires the
+    element lock with try_acquire on that scoped lock, and an accessor that still owns another element's mutex simply forgets it
+    - the old element stays locked for ever although no accessor points to it (every later find / insert / erase of that key
+    hangs).  Rule (sibling agreement over all overloads): on every path from the entry of a function that receives an accessor to
+    its call of lookup(), the accessor is released - in the function itself or in the helper it forwards the accessor to."""
+    memo = {}
+
+    def acc_params(f):
+        return [p for p in f.d.get('params', []) if 'accessor' in (p.get('ty') or '') and 'not_used' not in (p.get('ty') or '')]
+
+    def ok_for(f, pv, depth=0):
+        key = (f.u, pv)
+        if key in memo:
+            return memo[key]
+        memo[key] = (True, 0)
+        rel = set(pos for pos, s, node, d in calls_named(f, ('release',)) if f.n(f.strip(node.get('obj', -1))).get('v') == pv)
+        sites = 0
+        good = True
+        for pos, s, node, d in calls(f):
+            nm = (d or {}).get('n')
+            args = node.get('a', [])
+            fwd = [i for i, a in enumerate(args) if any(f.nodes[x].get('k') == 'var' and f.nodes[x].get('v') == pv for x in f.subtree(a))]
+            if not fwd:
+                continue
+            if nm in ('release', 'is_write_access_needed', 'forward', 'move', 'accessor_location') or nm is None:
+                continue
+            g = facts.fns.get(node.get('fn'))
+            covered = every_path_passes(f, 'entry', lambda q, e: q in rel, end=pos)[0]
+            if nm == 'lookup':
+                sites += 1
+                good = good and covered
+            elif g is not None and (g.cls or '') == CHM[:-2] and depth < 3:
+                ps = g.d.get('params', [])
+                sub_ok, sub_sites = (True, 0)
+                for i in fwd:
+                    if i < len(ps):
+                        r = ok_for(g, ps[i]['v'], depth + 1)
+                        sub_ok, sub_sites = sub_ok and r[0], sub_sites + r[1]
+                if sub_sites:
+                    sites += sub_sites
+                    good = good and (covered or sub_ok)
+        memo[key] = (good, sites)
+        return memo[key]
+    n = 0
+    for fn in sorted(facts.fns.values(), key=lambda f: f.q):
+        if (fn.cls or '') != CHM[:-2] or fn.kind != 'method':
+            continue
+        if facts.callers(fn.u) and any((c[0].cls or '') == CHM[:-2] for c in facts.callers(fn.u)):
+            continue                    # helpers are judged through their callers
+        for p in acc_params(fn):
+            good, sites = ok_for(fn, p['v'])
+            if not sites:
+                continue
+            n += 1
+            rep.ob('D4', 'K3', fn, 'an accessor handed to %s is released before lookup() acquires through it' % fn.p.split('::')[-1], good,
+                   'a path reaches lookup() with the accessor still holding its previous element: the element lock acquired through the '
+                   'accessor replaces the old one, which stays locked for ever - later find / insert / erase of that key hang',
+                   key_extra='acc-release|%s|%s' % (fn.p.split('::')[-1], 'const' if 'const_accessor' in p['ty'] else 'rw'))
+    if n < 6:
+        raise AnalysisBroken('concurrent_hash_map: public operations with an accessor argument that reach lookup(): %d (expected >= 6)' % n)
